@@ -741,6 +741,13 @@ std::vector<std::string> plan_of(const std::string& kind, uint64_t seed, uint64_
    if (kind == "SCALE") return g_scale.plan(idx);
    if (kind == "SCALEQ") return g_scaleq.plan(idx);
    if (kind == "KNOB") return g_knobs.plan(idx);
+   if (kind == "FIFO") { // the three examples and three test points as a named FIFO, 8 cut patterns each (real-process layer)
+      std::vector<size_t> fs;
+      for (size_t f = 0; f < g_corpus.files.size(); ++f) if (g_corpus.files[f].rel.find("/input/example.") != std::string::npos) fs.push_back(f);
+      for (size_t f = 0; f < g_corpus.files.size() && fs.size() < 6; f += 7) if (g_corpus.files[f].rel.find("/input/example.") == std::string::npos) fs.push_back(f);
+      if (idx >= fs.size() * 8) return {};
+      return {"base corpus " + g_corpus.files[fs[idx / 8]].rel, "src fifo", "chunks " + std::to_string(1000 + idx) + " 64"};
+   }
    if (kind == "BOUNDARY") return g_boundary.plan(idx);
    if (kind == "BLOCKS") return g_blocks.plan(idx);
    if (kind == "BLOCKSQ") return g_blocksq.plan(idx);
@@ -824,7 +831,7 @@ int main(int argc, char** argv)
          g_hash_all = t.size() > 1 && t[1] != "0";
          std::printf("DONE\n");
       } else if (t[0] == "COUNT") {
-         std::printf("COUNT CONFIG %zu\nCOUNT CONFIGQ %zu\nCOUNT ARGLEN %zu\nCOUNT BOUNDARY %zu\nCOUNT EDGE %zu\nCOUNT SCALE %zu\nCOUNT SCALEQ %zu\nCOUNT CMDLINE %zu\nCOUNT ENV %zu\nCOUNT BLOCKS %zu\nCOUNT BLOCKSQ %zu\nCOUNT KNOB %zu\n", g_config.total, g_configq.total, g_arglen.total, g_boundary.total, g_boundary.edge.size(), g_scale.total, g_scaleq.total, g_cmdline.total, g_envspace.total, g_blocks.total, g_blocksq.total, g_knobs.total);
+         std::printf("COUNT CONFIG %zu\nCOUNT CONFIGQ %zu\nCOUNT ARGLEN %zu\nCOUNT BOUNDARY %zu\nCOUNT EDGE %zu\nCOUNT SCALE %zu\nCOUNT SCALEQ %zu\nCOUNT CMDLINE %zu\nCOUNT ENV %zu\nCOUNT BLOCKS %zu\nCOUNT BLOCKSQ %zu\nCOUNT KNOB %zu\nCOUNT FIFO 48\n", g_config.total, g_configq.total, g_arglen.total, g_boundary.total, g_boundary.edge.size(), g_scale.total, g_scaleq.total, g_cmdline.total, g_envspace.total, g_blocks.total, g_blocksq.total, g_knobs.total);
          std::printf("COUNT PREFIX %zu\nCOUNT PREFIXQ %zu\nCOUNT TOKEN %zu\nCOUNT TOKENQ %zu\nCOUNT CORPUS %zu\nBUDGET %" PRIu64 " %" PRIu64 "\nDONE\n",
                      g_prefix.total, g_prefixq.total, g_token.total, g_tokenq.total, 3 * g_corpus.files.size(), g_budget, max_steps);
       } else if (t[0] == "DUMP" && t.size() >= 4) {
